@@ -59,3 +59,38 @@ func ZZ_C04_caller_gone() {
 		zz.Unreachable("the goroutine closes the reply channel when the caller is gone")
 	}
 }
+
+// C04 (a repeated ADD for the same pod receives the same address): the pool's
+// lookup.  Arbitrary set of three addresses (status, owner symbolic, at most
+// one per pod), every map iteration order: a pod that already holds an
+// address gets exactly that one back, however many idle addresses exist; a
+// pod that holds none gets a valid unowned address or nothing.
+// zz:repeat 64
+func ZZ_C04_same_pod_same_address() {
+	f := zzNewFactory(false)
+	_, slots := zzPool(3, 0, f)
+	zz.Assume(zzInv(slots))
+	set := Set{}
+	for _, s := range slots {
+		set[s.ip.ip] = s.ip
+	}
+	pod := zz.OneOf("pod", zzPods[0], zzPods[1], "")
+	got := set.PeekAvailable(pod)
+	var mine *IP
+	anyFree := false
+	for _, s := range slots {
+		if pod != "" && s.ip.podID == pod {
+			mine = s.ip
+		}
+		anyFree = anyFree || (s.ip.status == ipStatusValid && s.ip.podID == "")
+	}
+	if mine != nil {
+		zz.Reach("holds one")
+		zz.Assert(got == mine, "a pod that already holds an address is given exactly that address again")
+		return
+	}
+	zz.Assert((got != nil) == anyFree, "a pod without an address gets one iff a valid unowned address exists")
+	if got != nil {
+		zz.Assert(got.status == ipStatusValid && got.podID == "", "a fresh grant is a valid address nobody owns")
+	}
+}
